@@ -299,10 +299,12 @@ def Constraint.trivial : Constraint → Trivial
         else if t1.incompatible t2 then .violated else .unknown
       | _, _ => if t1.incompatible t2 then .violated else .unknown
   | .isDType t =>
-    if t.isClosed then (match t with
-      | .dim _ => .satisfied
-      | _ => .violated)
-    else .unknown
+    match t with
+    | .dim d =>
+      -- a dimension type that mentions type variables or type parameters goes to the solver, which records
+      -- them as dimension variables (a type parameter then needs its `Dim` bound)
+      if (dTypeVars true d).isEmpty then .satisfied else .unknown
+    | _ => if t.isClosed then .violated else .unknown
   | .equalScalar d =>
     if d == [] then .satisfied
     else if (dTypeVars false d).isEmpty then .violated
